@@ -47,6 +47,10 @@ def main():
     # skipped branch always dies (a symbolic __hash__ result is a TypeError), doubling the work at every hash()
     # call.  Always calling into the real function removes only that alternative branch.
     _core.ShortCircuitingContext.make_interceptor = lambda self, original: original
+    # CrossHair bypasses functools.lru_cache while tracing (every call goes to the wrapped function).  That changes
+    # the behaviour of code that caches mutable results, so the real cache semantics are restored.
+    from functools import _lru_cache_wrapper
+    _core._PATCH_REGISTRATIONS.pop(_lru_cache_wrapper.__call__, None)
     spec = importlib.util.spec_from_file_location("vcond_" + os.path.basename(path)[:-3].replace("-", "_"), path)
     mod = importlib.util.module_from_spec(spec)
     sys.modules[spec.name] = mod
